@@ -389,15 +389,39 @@ COV_ALLOW = (
 )
 
 
+COV_MISSING = []
+
+
 def cov_functions():
+    """the Integrator class (as in C02) and the anchored 2D functions of error_model / measurements that exist
+    today, plus, transitively, the private helpers of those modules / classes they call"""
     from pyins import error_model, measurements
-    f = H.cov_functions()
     E = error_model.InsErrorModel
-    f.update({'InsErrorModel.correct_pva': E.correct_pva, 'InsErrorModel._transform_3d_2d': E._transform_3d_2d,
-              'InsErrorModel.transform_to_output': E.transform_to_output,
-              'Position.compute_matrices': measurements.Position.compute_matrices,
-              'NedVelocity.compute_matrices': measurements.NedVelocity.compute_matrices})
+    named, missing = H.named_functions([
+        (E, 'correct_pva'), (E, '_transform_3d_2d'), (E, 'transform_to_output'),
+        (E, 'position_error_jacobian'), (E, 'ned_velocity_error_jacobian'),
+        (measurements.Position, 'compute_matrices'), (measurements.NedVelocity, 'compute_matrices')])
+    COV_MISSING[:] = missing
+    named = H.with_private_callees(named, [error_model, E, measurements, measurements.Measurement,
+                                           measurements.Position, measurements.NedVelocity])
+    f = H.cov_functions()
+    f.update(named)
     return f
+
+
+def coverage_3d_calls(seed):
+    """the same functions once with_altitude=True, ONLY so that lines reachable in 3D mode alone (early
+    returns after a restructuring) count as exercised; nothing is checked here (3D behaviour is not C13's)"""
+    from pyins import error_model
+    rs = np.random.RandomState(seed % (2 ** 31))
+    em3 = error_model.InsErrorModel(with_altitude=True)
+    for k in range(3):
+        pva = _rand_pva(rs)
+        em3.transform_to_output(pva)
+        em3.transform_to_output(pd.DataFrame([pva, pva]))
+        em3.correct_pva(pva, rs.normal(size=9) * 1e-2)
+    for h in H.corpus(modes=(True,)):
+        H.run_real(h, H.make_data(h), deep=False)
 
 
 def check(r):
@@ -422,7 +446,14 @@ def check(r):
     cv = H.Coverage(cov_functions(), COV_ALLOW)
     with cv:                                # all numeric runs are with_altitude=False, in this process
         numeric(r, random.Random(r.seed + 13), r.tier == 'quick')
+        try:
+            coverage_3d_calls(r.seed)
+        except Exception:
+            r.log("3D calls for line coverage raised (ignored here):\n" + traceback.format_exc()[-600:])
     cv.finish(r)
+    if COV_MISSING:
+        r.coverage['code_lines']['anchors_not_found'] = list(COV_MISSING)
+        r.log(f"line coverage: anchored functions no longer present under their names: {COV_MISSING}")
     if r.tier == 'thorough':
         r.hygiene('Props/C13.v')
         r.coqchk('Props/C13.v')
